@@ -16,14 +16,24 @@ mod gen;
 mod math;
 mod prng;
 mod refhpke;
-mod shim;
 mod shrink;
-mod suites;
 mod util;
 mod world;
 mod world_ops;
 mod world_probes;
 
+pub use hpke_dyn::shim;
+pub mod suites {
+    pub use hpke_dyn::suites::*;
+    pub fn suite(id: SuiteId) -> &'static dyn Suite {
+        match id.kem {
+            KemId::X25519 => dyn_x25519::get(id.kdf, id.aead, id.shim),
+            KemId::P256 => dyn_p256::get(id.kdf, id.aead, id.shim),
+            KemId::P384 => dyn_p384::get(id.kdf, id.aead, id.shim),
+            KemId::P521 => dyn_p521::get(id.kdf, id.aead, id.shim),
+        }
+    }
+}
 use cov::Cov;
 use events::*;
 use serde_json::json;
